@@ -12,7 +12,6 @@ package xbkt
 
 import (
 	"fmt"
-	"sort"
 	"testing"
 
 	"github.com/prometheus/prometheus/model/labels"
@@ -28,8 +27,8 @@ type c08Source struct {
 	lsets  []labels.Labels
 	inTime func(i int, mint, maxt int64) bool
 	// block time range for BucketStore sources ([mint,maxt)); zero value = unbounded
-	bounded        bool
-	bmint, bmaxt   int64
+	bounded      bool
+	bmint, bmaxt int64
 }
 
 type c08Expect struct {
@@ -267,4 +266,3 @@ func TestVerifC08_Proxy(t *testing.T) {
 	})
 }
 
-var _ = sort.Strings
